@@ -252,6 +252,10 @@ def build_world(case, cache=True, rev=False, debug=False):
                 visit(kpath)
     visit(())
     for e in case['edges']:
+        if e.get('pure_async'):
+            # async_requests between two simulators without any data connection
+            world.connect(ents[e['a']], ents[e['b']], async_requests=True)
+            continue
         kw = {}
         if e['kind'] == 'ts': kw['time_shifted'] = e.get('shift', 1)
         if e['kind'] == 'w': kw['weak'] = True
@@ -264,6 +268,10 @@ def build_world(case, cache=True, rev=False, debug=False):
     for (i, t) in case.get('init', []):
         world.set_initial_event(f'S{i}', t)
     return world
+
+
+class Hang(BaseException):
+    pass
 
 
 class Run:
@@ -314,6 +322,13 @@ def run_case(case, lazy=True, cache=True, strategy='random', seed=0, script=None
                 await c
         return orig(wrapper())
     world.loop.run_until_complete = lambda coro: patched(coro) if getattr(coro, '__name__', '') == 'run' else orig(coro)
+    # watchdog: World.run() checks the scenario for cycles before the event loop starts; that closure can ping-pong between
+    # two delays of equal tiers and different cutoff for ever (non-convex scenarios, depending on set order: finding F9h)
+    import signal, threading
+    use_alarm = threading.current_thread() is threading.main_thread() and signal.getsignal(signal.SIGALRM) in (signal.SIG_DFL, None, signal.SIG_IGN)
+    if use_alarm:
+        def _alarm(sig, frm): raise Hang('World.run() did not return within 30 s')
+        signal.signal(signal.SIGALRM, _alarm); signal.alarm(30)
     try:
         world.run(case['until'], print_progress=False, lazy_stepping=lazy)
     except BaseException as e:
@@ -323,6 +338,8 @@ def run_case(case, lazy=True, cache=True, strategy='random', seed=0, script=None
         except Exception:
             pass
     finally:
+        if use_alarm:
+            signal.alarm(0); signal.signal(signal.SIGALRM, signal.SIG_DFL)
         sched.perf_counter = real_pc
     r.log = ctrl.log
     r.opened = ctrl.opened
